@@ -5,8 +5,9 @@ Three parties are compared on every invocation of a generated matrix:
   model      : Cli.case_validate / case_compile (Coq, extracted) fed with the library verdicts,
   expectation: the property itself - the verdict of the route's library call WITH THE SAME
                FEATURES (obtained from the library through harness/src/bin/c18.rs).
-model != observed                       -> VIOLATION (the model no longer mirrors cli.rs)
-expectation != observed                 -> KNOWN-FINDING when an open finding's classifier explains it, else VIOLATION
+model != observed        -> VIOLATION (the model no longer mirrors cli.rs)
+expectation != observed  -> VIOLATION (the tool does not report what the library decides; e.g. a route dropping --features)
+The witnesses of the two repaired findings (8c0094b) run first as a corpus.
 """
 import json, os, random, re, shutil, subprocess
 from concurrent.futures import ThreadPoolExecutor
@@ -257,7 +258,7 @@ class Lib:
         return "11" + v[8], v[:8]
 
 
-def model_line(lib, inv, devs):
+def model_line(lib, inv):
     if inv["cmd"] == "compile":
         code = {0: 0, 4: 0, 1: 1, 2: 2, 3: 3}[lib.schema_code(inv["schema"])]     # compile-cddl does not ask for a root type
         return "C\t%d\t%d" % (inv["ci"], code)
@@ -266,13 +267,13 @@ def model_line(lib, inv, devs):
         if not names:
             return "-"
         return ",".join("%s:%s" % lib.src(inv["schema"], d, inv["feats"], sc == 0) for d in names)
-    return "\t".join(["V", devs, "%d" % inv["ci"], "%d" % inv["hdr"],
+    return "\t".join(["V", "%d" % inv["ci"], "%d" % inv["hdr"],
                       "-" if inv["feats"] is None else str(len(inv["feats"])), str(sc),
                       srcs(inv["j"]), srcs(inv["c"]), srcs(inv["s"]),
                       "-" if inv["stdin"] is None else srcs([inv["stdin"]])])
 
 
-def coq_expr(lib, inv, devs):
+def coq_expr(lib, inv):
     B = lambda c: "true" if c in (True, "1") else "false"
     if inv["cmd"] == "compile":
         code = {0: 0, 4: 0, 1: 1, 2: 2, 3: 3}[lib.schema_code(inv["schema"])]
@@ -285,7 +286,7 @@ def coq_expr(lib, inv, devs):
         return "[" + "; ".join(ds(d) for d in names) + "]"
     f = "None" if inv["feats"] is None else "(Some [%s])" % ";".join(str(i + 1) for i in range(len(inv["feats"])))
     si = "None" if inv["stdin"] is None else "(Some (%s))" % ds(inv["stdin"])
-    return "case_validate %s %s %s %s %s %d %s %s %s %s" % (B(devs[0]), B(devs[1]), B(inv["ci"]), B(inv["hdr"]), f, sc,
+    return "case_validate %s %s %s %d %s %s %s %s" % (B(inv["ci"]), B(inv["hdr"]), f, sc,
                                                          dl(inv["j"]), dl(inv["c"]), dl(inv["s"]), si)
 
 
@@ -297,7 +298,7 @@ def expectation(lib, inv):
     """The property, computed independently of the Coq model: every document is reported
     successful iff the library call of its route with the same features succeeds; processing
     order json, cbor, csv, stdin; --ci stops at the first document that is not successful.
-    Returns (canon, slots) where slots lists (slot, route, flags, bits, used index, dropped index)."""
+    Returns (canon, slots) where slots lists (slot, route, flags, bits, index of the verdict used)."""
     if inv["cmd"] == "compile":
         sc = lib.schema_code(inv["schema"])
         if sc == 1:
@@ -314,21 +315,20 @@ def expectation(lib, inv):
     for r, i, d in todo:
         fl, bits = lib.src(inv["schema"], d, inv["feats"], True)
         if r == "j":
-            use, drop = J_F, None
+            use = J_F
         elif r == "c":
-            use, drop = C_F, C_N
+            use = C_F
         elif r == "s":
-            use, drop = (S_HF if inv["hdr"] else S_NF), None
+            use = S_HF if inv["hdr"] else S_NF
         else:
-            use, drop = (J_F, J_N) if fl[2] == "1" else (C_F, None)
-        slots.append(("%s%d" % (r, i), r, fl, bits, use, drop))
-    return render_expect(inv, slots, set()), slots
+            use = J_F if fl[2] == "1" else C_F
+        slots.append(("%s%d" % (r, i), r, fl, bits, use))
+    return render_expect(inv, slots), slots
 
 
-def render_expect(inv, slots, dropped):
-    """expected canonical line; for slots in `dropped` the verdict without features is used"""
+def render_expect(inv, slots):
     reps, fail = [], False
-    for slot, r, fl, bits, use, drop in slots:
+    for slot, r, fl, bits, use in slots:
         if r != "i" and fl[0] == "0":
             o = "?"
         elif r != "i" and (fl[1] == "0" or (r in "js" and fl[2] == "0")):
@@ -336,7 +336,7 @@ def render_expect(inv, slots, dropped):
             fail = True
             break
         else:
-            o = "+" if bits[drop if slot in dropped else use] == "1" else "-"
+            o = "+" if bits[use] == "1" else "-"
         reps.append(slot + o)
         if o != "+" and inv["ci"]:
             fail = True
@@ -344,26 +344,16 @@ def render_expect(inv, slots, dropped):
     return " ".join(["-"] + reps + ["X%d" % fail])
 
 
-def classify(inv, slots, observed, kfs):
-    """narrow classifiers of the two open findings: returns the set of finding ids that explain
-    `observed`, or None when they do not"""
-    cands = {}
-    for slot, r, fl, bits, use, drop in slots:
-        if drop is None or inv["feats"] is None or bits[use] == bits[drop]:
-            continue
-        if r == "c":
-            cands[slot] = "kf-c18-cbor-features"          # --cbor route, verdict differs only through the features
-        elif r == "i" and fl[2] == "1":
-            cands[slot] = "kf-c18-stdin-json-features"    # stdin sniffed as JSON, likewise
-    cands = {s: k for s, k in cands.items() if k in kfs}
-    if not cands:
-        return None
-    # the observation must be exactly the expectation with the classified call sites dropping the features
-    if render_expect(inv, slots, set(cands)) != observed:
-        return None
+def features_dropped(inv, slots, observed):
+    """diagnosis only (the case is a VIOLATION either way): slots whose observed report equals the
+    verdict of the same library call WITHOUT the features while the verdict with them differs"""
+    nofeat = {J_F: J_N, C_F: C_N, S_HF: S_HN, S_NF: S_NN}
     seen = observed.split()
-    used = {k for s, k in cands.items() if s + "+" in seen or s + "-" in seen}     # call sites actually reached
-    return used or None
+    out = []
+    for slot, r, fl, bits, use in slots:
+        if inv["feats"] is not None and bits[use] != bits[nofeat[use]] and (slot + ("+" if bits[nofeat[use]] == "1" else "-")) in seen:
+            out.append(slot)
+    return out
 
 
 # ---------------------------------------------------------------------------
@@ -383,14 +373,14 @@ def mk(cmd="validate", ci=False, hdr=False, feats=None, schema="plain", j=(), c=
 def gen_invocations(rng, tier, wide=False):
     invs = []
     full = tier != "quick"
-    # (A) single-document sweep: every schema x document x route, configurations sampled (all of them in thorough)
+    # (A) single-document sweep: every schema x document x route, configurations sampled
     configs = [(ci, hdr, f) for ci in (False, True) for hdr in (False, True) for f in FEATS]
     for sch in OK_SCHEMAS:
         for d in DOCS:
             for r in ("jcsi" if full or wide else rng.sample("jcsi", 2)):     # quick: two of the four routes per pair
                 if r == "i" and d in ("missing", "dir"):
                     continue
-                relevant = configs if full else rng.sample(configs, 3 if wide else 1)
+                relevant = rng.sample(configs, 12) if full else rng.sample(configs, 3 if wide else 1)
                 for ci, hdr, f in relevant:
                     if hdr and r != "s" and not full:
                         hdr = rng.random() < 0.2
@@ -438,7 +428,7 @@ def gen_invocations(rng, tier, wide=False):
             invs.append(mk(cmd="compile", ci=ci, schema=sch, style=rng.randrange(1 << 30), cls="compile"))
     # (E) multi-document invocations: 0-3 files per flag + stdin; mostly processable documents, with
     #     failing / missing / unreadable ones placed early, in the middle and last (masking in both directions)
-    n_multi = (1350 if wide else 450) if tier == "quick" else 12000
+    n_multi = (1350 if wide else 450) if tier == "quick" else 8000
     for _ in range(n_multi):
         sch = rng.choice(OK_SCHEMAS if rng.random() < 0.93 else BAD_SCHEMAS)
         def pick():
@@ -460,7 +450,7 @@ def gen_invocations(rng, tier, wide=False):
     # (F) all-valid multi-document invocations (so that long success runs and exit 0 under --ci occur)
     valid = {"plain": (["j_ok", "j_xs"], ["c_ok"], []), "any": (["j_2", "j_arr", "j_ok"], ["c_2", "c_arr", "c_ok"], ["s_ok", "s_int"]),
              "csv": ([], [], ["s_ok", "s_q"]), "feat": (["j_ok", "j_xa", "j_x5"], ["c_ok", "c_xa", "c_x5"], [])}
-    for _ in range(60 if tier == "quick" else 1500):
+    for _ in range(60 if tier == "quick" else 1000):
         sch = rng.choice(sorted(valid))
         js, cs, ss = valid[sch]
         invs.append(mk(ci=rng.random() < 0.7, hdr=False, feats=rng.choice(FEATS), schema=sch,
@@ -475,65 +465,39 @@ def gen_invocations(rng, tier, wide=False):
 
 
 # ---------------------------------------------------------------------------
-# findings: witnesses replayed on the real binary
+# corpus: runs first.  Witnesses of the findings repaired by 8c0094b (kf-c18-cbor-features,
+# kf-c18-stdin-json-features): schema `feat`, {"n":1,"x":5} is rejected only with --features fx.
 # ---------------------------------------------------------------------------
 
-def my_findings():
-    """open C18 findings: known_findings.json, plus this property's own fragment (not yet assembled)"""
-    fs = {f["id"]: f for f in common.known_findings(PROP)}
-    known_ids = set()
-    try:
-        allk = json.load(open(os.path.join(common.VERIF, "known_findings.json")))["findings"]
-        known_ids = {f["id"] for f in allk}
-    except Exception:
-        pass
-    p = os.path.join(common.VERIF, "findings.d", PROP + ".json")
-    if os.path.exists(p):
-        for f in json.load(open(p)).get("findings", []):
-            if f["status"] == "open" and f["id"] not in known_ids:
-                fs.setdefault(f["id"], f)
-    return fs
-
-
-def replay_witness(cli, drv, kf):
-    """returns (still_fails, description): run the witness invocation on the binary and the library"""
-    w = kf["witness"]
-    root = os.path.join(SCRATCH, "witness-%d-%s" % (os.getpid(), kf["id"]))
-    shutil.rmtree(root, ignore_errors=True)
-    os.makedirs(root)
-    try:
-        open(os.path.join(root, "schema.cddl"), "w").write(w["schema"])
-        doc = bytes.fromhex(w["document_hex"])
-        open(os.path.join(root, "doc"), "wb").write(doc)
-        p = subprocess.run([cli] + w["argv"], cwd=root, input=doc if "--stdin" in w["argv"] else b"",
-                           stdout=subprocess.PIPE, stderr=subprocess.STDOUT, timeout=60)
-        out = ANSI.sub("", p.stdout.decode("utf-8", "replace"))
-        reported_ok = "is successful" in out
-        v = common.run_tool(drv, ["V\t%s\t%s\t%s" % (w["schema"].encode().hex(), w["document_hex"], ",".join(w["features"]))])[0]
-        lib_ok = v[{"json": J_F, "cbor": C_F}[w["library_call"]]] == "1"
-        return (reported_ok != lib_ok), "tool reports %s, library with features %s says %s (exit %d)" % (
-            "success" if reported_ok else "failure", w["features"], "Ok" if lib_ok else "Err", p.returncode)
-    finally:
-        shutil.rmtree(root, ignore_errors=True)
+def corpus():
+    out = []
+    for ci in (True, False):
+        for f in (["fx"], ["zz", "fx"], None):
+            out.append(mk(ci=ci, feats=f, schema="feat", c=["c_x5"], style=1, cls="corpus"))            # cli.rs:230
+            out.append(mk(ci=ci, feats=f, schema="feat", stdin="j_x5", style=2, cls="corpus"))          # cli.rs:299
+            out.append(mk(ci=ci, feats=f, schema="feat", stdin="c_x5", style=3, cls="corpus"))          # cli.rs:317
+            out.append(mk(ci=ci, feats=f, schema="feat", j=["j_x5"], style=4, cls="corpus"))            # cli.rs:193
+            out.append(mk(ci=ci, feats=f, schema="csvf", s=["s_bad"], style=5, cls="corpus"))           # cli.rs:266
+    return out
 
 
 # ---------------------------------------------------------------------------
 # the check
 # ---------------------------------------------------------------------------
 
-def evaluate(cli, lib, orc, root, invs, devs):
+def evaluate(cli, lib, orc, root, invs):
     lib.fill(invs)
     with ThreadPoolExecutor(max_workers=common.NPROC) as ex:
         raw = list(ex.map(lambda inv: run_cli(cli, root, inv), invs))
-    model = common.run_tool(orc, [model_line(lib, inv, devs) for inv in invs])
+    model = common.run_tool(orc, [model_line(lib, inv) for inv in invs])
     obs = [parse_output(inv, rc, out) for inv, (rc, out) in zip(invs, raw)]
     return raw, obs, model
 
 
-def replay_dict(inv, lib, devs, obs, model, expect, raw):
+def replay_dict(inv, lib, obs, model, expect, raw):
     names = set(inv["j"] + inv["c"] + inv["s"] + ([inv["stdin"]] if inv["stdin"] is not None else []))
     enc = lambda x: None if x is None else (DIR if x == DIR else x.hex())
-    return {"invocation": inv, "argv": argv_of(inv), "devs": devs, "schema_hex": enc(SCHEMAS[inv["schema"]]),
+    return {"invocation": inv, "argv": argv_of(inv), "schema_hex": enc(SCHEMAS[inv["schema"]]),
             "documents_hex": {d: enc(DOCS[d]) for d in sorted(names)},
             "observed": obs, "model": model, "expectation": expect, "output": raw[-1500:]}
 
@@ -549,24 +513,13 @@ def run(tier, seed):
     materialize(root)
     lib = Lib(drv)
     try:
-        # open findings: replay the witnesses; they decide which version of the model mirrors the code
-        kfs = my_findings()
-        active = set()
-        for kid in ("kf-c18-cbor-features", "kf-c18-stdin-json-features"):
-            if kid in kfs:
-                still, desc = replay_witness(cli, drv, kfs[kid])
-                if still:
-                    active.add(kid)
-                    res.known(kfs[kid])
-                else:
-                    res.notes.append("finding %s apparently repaired: %s" % (kid, desc))
-        devs = "%d%d" % ("kf-c18-cbor-features" in active, "kf-c18-stdin-json-features" in active)
-
-        invs = gen_invocations(rng, tier, wide=not proved)
-        raw, obs, model = evaluate(cli, lib, orc, root, invs, devs)
+        for kf in common.known_findings(PROP):          # none expected: both C18 findings are fixed
+            res.notes.append("open finding %s is listed but this check has no classifier for it; a recurrence is a VIOLATION" % kf["id"])
+        invs = corpus() + gen_invocations(rng, tier, wide=not proved)
+        raw, obs, model = evaluate(cli, lib, orc, root, invs)
 
         hist, outcomes, classes = {}, {}, {}
-        distinct, n_known, n_feat_logged = set(), {}, 0
+        distinct, n_feat_logged = set(), 0
         for inv, (rc, out), o, m in zip(invs, raw, obs, model):
             classes[inv["cls"]] = classes.get(inv["cls"], 0) + 1
             exp, slots = expectation(lib, inv)
@@ -587,44 +540,41 @@ def run(tier, seed):
             # (1) model vs binary
             if o["canon"] != m:
                 res.violation("cddl %s: observed `%s`, model of cli.rs `%s`" % (" ".join(argv_of(inv)), o["canon"], m),
-                              replay_dict(inv, lib, devs, o["canon"], m, exp, out))
+                              replay_dict(inv, lib, o["canon"], m, exp, out))
                 continue
             # (2) side observations that tie clap / logging
             if o["notes"]:
-                res.violation("cddl %s: %s" % (" ".join(argv_of(inv)), o["notes"][0]), replay_dict(inv, lib, devs, o["canon"], m, exp, out))
+                res.violation("cddl %s: %s" % (" ".join(argv_of(inv)), o["notes"][0]), replay_dict(inv, lib, o["canon"], m, exp, out))
                 continue
             if inv["cmd"] == "validate":
                 want = None if inv["feats"] is None else "[" + ", ".join('"%s"' % f for f in inv["feats"]) + "]"
                 if o["feats_logged"] != want:
                     res.violation("cddl %s: enabled features logged as %s, passed %s" % (" ".join(argv_of(inv)), o["feats_logged"], want),
-                                  replay_dict(inv, lib, devs, o["canon"], m, exp, out))
+                                  replay_dict(inv, lib, o["canon"], m, exp, out))
                     continue
                 n_feat_logged += want is not None
             if rc not in (0, 1):
                 res.violation("cddl %s: exit status %d (clap error or panic)" % (" ".join(argv_of(inv)), rc),
-                              replay_dict(inv, lib, devs, o["canon"], m, exp, out))
+                              replay_dict(inv, lib, o["canon"], m, exp, out))
                 continue
             if rc == 1 and o["errline"] is None:
                 res.violation("cddl %s: exit status 1 without an `Error:` line" % " ".join(argv_of(inv)),
-                              replay_dict(inv, lib, devs, o["canon"], m, exp, out))
+                              replay_dict(inv, lib, o["canon"], m, exp, out))
                 continue
             # (3) the property: expectation with the same features vs binary
             if o["canon"] != exp:
-                used = classify(inv, slots, o["canon"], active)
-                if used:
-                    for k in used:
-                        n_known[k] = n_known.get(k, 0) + 1
-                        res.known(kfs[k])
-                else:
-                    res.violation("cddl %s: observed `%s`, but the library calls with the same features give `%s`" % (
-                        " ".join(argv_of(inv)), o["canon"], exp), replay_dict(inv, lib, devs, o["canon"], m, exp, out))
+                dropped = features_dropped(inv, slots, o["canon"])
+                res.violation("cddl %s: observed `%s`, but the library calls with the same features give `%s`%s" % (
+                    " ".join(argv_of(inv)), o["canon"], exp,
+                    " (slots %s show the verdict of the call without --features)" % ",".join(dropped) if dropped else ""),
+                    replay_dict(inv, lib, o["canon"], m, exp, out))
 
         # vm_compute slice: guards the extraction step
         sl = rng.sample(invs, min(150, len(invs)))
         vm = common.vm_compute_slice(PROP, "From Coq Require Import List NArith. Import ListNotations. Open Scope N_scope.\n"
-                                     "From Cddl Require Import Cli.Cli.", [coq_expr(lib, inv, devs) for inv in sl])
-        orc_sl = common.run_tool(orc, [model_line(lib, inv, devs) for inv in sl], shards=1)
-        bad = [(model_line(lib, inv, devs), x, y) for inv, x, y in zip(sl, vm, orc_sl) if x != y]
+                                     "From Cddl Require Import Cli.Cli.", [coq_expr(lib, inv) for inv in sl])
+        orc_sl = common.run_tool(orc, [model_line(lib, inv) for inv in sl], shards=1)
+        bad = [(model_line(lib, inv), x, y) for inv, x, y in zip(sl, vm, orc_sl) if x != y]
         if bad:
             res.violation("extracted oracle and vm_compute disagree on %s: %s vs %s" % bad[0], {"kind": "extraction", "case": bad[0]}, no_input=True)
         if not proved and not res.violations:
@@ -639,7 +589,7 @@ def run(tier, seed):
             "distinct_nontrivial": len(distinct),
             "rule": "every invocation runs the real binary, the extracted model and the expectation; distinct_nontrivial = distinct "
                     "(schema, flags, document lists) validate invocations whose schema compiles and that name at least one existing document or stdin. "
-                    "Classes: single = every compiling schema x every document x every route (quick: two sampled routes per pair and one sampled configuration; thorough: all routes x all 24 configurations); "
+                    "Classes: corpus = witnesses of the repaired feature-dropping findings on all five call sites; single = every compiling schema x every document x every route (quick: two sampled routes per pair and one sampled configuration; thorough: all routes x 12 of the 24 configurations); "
                     "sensitive = feature/header/sniffing-deciding schema-document pairs x every route x --ci x every feature list x --csv-header, exhaustive; "
                     "bad-schema = every non-compiling / unreadable / missing schema x --ci x every route; masking = a missing / unreadable / failing document alone, before, after and between valid ones on every file route x --ci, and next to a valid document of another route, exhaustive; compile = compile-cddl on every schema x --ci; "
                     "multi = random 0-3 files per flag + stdin with missing / unreadable / failing documents in random positions; multi-valid = all documents valid",
@@ -648,8 +598,7 @@ def run(tier, seed):
             "outcome_split": outcomes,
             "library_calls": len(lib.v) * 8, "library_verdict_split_by_call": {
                 ["J(F)", "J(None)", "C(F)", "C(None)", "S(hdr,F)", "S(nohdr,F)", "S(hdr,None)", "S(nohdr,None)"][i]: v for i, v in sorted(verdict_bits.items())},
-            "model_version_compared": {"dev_cbor_drops": devs[0] == "1", "dev_stdin_json_drops": devs[1] == "1"},
-            "known_finding_hits": n_known,
+            "corpus": "witnesses of the findings fixed by 8c0094b (--cbor and stdin-JSON with --features) and their sibling routes, %d invocations, run first" % len(corpus()),
             "features_log_line_checked": n_feat_logged,
             "vm_compute_slice": len(sl),
             "exhaustive": True,
@@ -685,14 +634,14 @@ def replay(path):
     materialize(root)
     try:
         lib = Lib(drv)
-        raw, obs, model = evaluate(cli, lib, orc, root, [inv], r.get("devs", "11"))
+        raw, obs, model = evaluate(cli, lib, orc, root, [inv])
         print("argv       : cddl " + " ".join(argv_of(inv)))
         print("output     :\n" + ANSI.sub("", raw[0][1]))
         print("observed   :", obs[0]["canon"])
         print("model      :", model[0])
         print("expectation:", expectation(lib, inv)[0])
         print("vm         :", common.vm_compute_slice(PROP, "From Coq Require Import List NArith. Import ListNotations. Open Scope N_scope.\n"
-                                                      "From Cddl Require Import Cli.Cli.", [coq_expr(lib, inv, r.get("devs", "11"))])[0])
+                                                      "From Cddl Require Import Cli.Cli.", [coq_expr(lib, inv)])[0])
     finally:
         shutil.rmtree(root, ignore_errors=True)
     return 0
